@@ -182,6 +182,23 @@ func runCheck(repo, out, prop, tier string, timeout, seed int, verbose, keep boo
 		}
 	}
 	solveAll(obls, dir, timeout, tier == "thorough", solverSeed, 16)
+	// second chance for obligations that ran out of time (a loaded machine must not turn into an alarm):
+	// a few at a time, three times the budget. Definite answers (unsat / sat) are final.
+	var again []*Obligation
+	for _, o := range obls {
+		if !o.Cover && !o.ShortTimeout && o.Status != "unsat" && o.Status != "sat" && o.TimeMS >= int64(timeout)*900 {
+			o.FirstStatus = o.Status
+			o.Status = ""
+			again = append(again, o)
+		}
+	}
+	if len(again) > 0 && len(again) <= 64 {
+		solveAll(again, dir, timeout*3, tier == "thorough", solverSeed, 4)
+	} else {
+		for _, o := range again {
+			o.Status = o.FirstStatus
+		}
+	}
 	tSolve := time.Since(start)
 	if os.Getenv("GOVC_TIMING") != "" {
 		fmt.Fprintf(os.Stderr, "load %v gen %v solve %v\n", tLoad, tGen-tLoad, tSolve-tGen)
